@@ -1,5 +1,6 @@
 import SaVerif.Model.CyUtil
 import SaVerif.Model.Row
+import SaVerif.Model.ApplyProcs
 import SaVerif.Props.C54
 /-!
 # C55 — Compiled and pure-Python implementations are interchangeable
@@ -283,5 +284,147 @@ example : (Row.make 3 (some [.neg, .none, .dbl]) [2, 0, 5]) = .ok ⟨3, [-2, 0, 
 example : (⟨2, [1, 2]⟩ : Row).lt [1, 3] = true := by decide
 example : (⟨2, [1, 2]⟩ : Row).getattr 5 = .error .attributeError := rfl
 end RowThms
+
+/-! ## `_apply_processors`: the compiled and the pure-Python branch compute the same row -/
+section ApplyProcsThms
+open SaVerif.ApplyProcs
+
+theorem applyAt_hit {α : Type} (pp ps : List (Slot α)) (f : α → α) (pre d : List α) (v : α)
+    (h : pp.length = pre.length) :
+    applyAt (pp ++ some f :: ps) (pre ++ v :: d) pre.length = pre ++ f v :: d := by
+  unfold applyAt
+  have h1 : (pp ++ some f :: ps)[pre.length]? = some (some f) := by
+    rw [← h]; simp
+  have h2 : (pre ++ v :: d)[pre.length]? = some v := by simp
+  rw [h1, h2]
+  simp
+
+theorem pure_eq_compiled_aux {α : Type} :
+    ∀ (ps : List (Slot α)) (pp : List (Slot α)) (pre d : List α),
+      pp.length = pre.length → ps.length = d.length →
+      (procValidFrom pre.length ps).foldl (applyAt (pp ++ ps)) (pre ++ d) = pre ++ applyCompiled ps d
+  | [], pp, pre, d, _, hd => by
+    have : d = [] := List.eq_nil_of_length_eq_zero hd.symm
+    subst this; simp [procValidFrom, applyCompiled]
+  | none :: ps, pp, pre, [], _, hd => by simp at hd
+  | some _ :: ps, pp, pre, [], _, hd => by simp at hd
+  | none :: ps, pp, pre, v :: d, hp, hd => by
+    have ih := pure_eq_compiled_aux ps (pp ++ [none]) (pre ++ [v]) d (by simp [hp]) (by simpa using hd)
+    simp only [List.length_append, List.length_cons, List.length_nil, List.append_assoc,
+      List.cons_append, List.nil_append] at ih
+    simp only [procValidFrom, applyCompiled]
+    exact ih
+  | some f :: ps, pp, pre, v :: d, hp, hd => by
+    have ih := pure_eq_compiled_aux ps (pp ++ [some f]) (pre ++ [f v]) d (by simp [hp]) (by simpa using hd)
+    simp only [List.length_append, List.length_cons, List.length_nil, List.append_assoc,
+      List.cons_append, List.nil_append] at ih
+    simp only [procValidFrom, applyCompiled, List.foldl_cons]
+    rw [applyAt_hit pp ps f pre d v hp]
+    exact ih
+
+/-- **apply_processors_branches_agree** (engine/_result_cy.py): for every processors tuple (any
+    functions, also ones that do not map NULL to NULL) and every raw row of the same width (any
+    values, NULLs included) the pure-Python branch — copy the row, overwrite the positions in
+    `proc_valid` — returns what the compiled branch — position by position — returns -/
+theorem apply_processors_branches_agree {α : Type} (procs : List (Slot α)) (data : List α)
+    (h : procs.length = data.length) :
+    applyPure procs (procValid procs) data = applyCompiled procs data := by
+  have := pure_eq_compiled_aux procs [] [] data rfl h
+  simpa [applyPure, procValid] using this
+
+/-- sensitivity: the pure branch with "NULLs pass through" inserted does NOT agree with the
+    compiled branch (a processor supplying a default for NULL shows it) -/
+theorem apply_processors_skip_null_counterexample :
+    applyPureSkipNull [NProc.nz.slot] (procValid [NProc.nz.slot]) [none]
+      ≠ applyCompiled [NProc.nz.slot] [none] := by decide
+
+theorem applyAt_miss {α : Type} (pp ps : List (Slot α)) (pre d : List α) (v : α)
+    (h : pp.length = pre.length) :
+    applyAt (pp ++ none :: ps) (pre ++ v :: d) pre.length = pre ++ v :: d := by
+  unfold applyAt
+  have h1 : (pp ++ (none : Slot α) :: ps)[pre.length]? = some none := by
+    rw [← h]; simp
+  rw [h1]
+
+theorem rowpure_eq_compiled_aux {α : Type} :
+    ∀ (ps : List (Slot α)) (pp : List (Slot α)) (pre d : List α),
+      pp.length = pre.length → ps.length = d.length →
+      (List.range' pre.length ps.length).foldl (applyAt (pp ++ ps)) (pre ++ d) = pre ++ applyCompiled ps d
+  | [], pp, pre, d, _, hd => by
+    have : d = [] := List.eq_nil_of_length_eq_zero hd.symm
+    subst this; simp [applyCompiled]
+  | none :: ps, pp, pre, [], _, hd => by simp at hd
+  | some _ :: ps, pp, pre, [], _, hd => by simp at hd
+  | none :: ps, pp, pre, v :: d, hp, hd => by
+    have ih := rowpure_eq_compiled_aux ps (pp ++ [none]) (pre ++ [v]) d (by simp [hp]) (by simpa using hd)
+    simp only [List.length_append, List.length_cons, List.length_nil, List.append_assoc,
+      List.cons_append, List.nil_append] at ih
+    simp only [List.length_cons, List.range'_succ, applyCompiled, List.foldl_cons]
+    rw [applyAt_miss pp ps pre d v hp]
+    exact ih
+  | some f :: ps, pp, pre, v :: d, hp, hd => by
+    have ih := rowpure_eq_compiled_aux ps (pp ++ [some f]) (pre ++ [f v]) d (by simp [hp]) (by simpa using hd)
+    simp only [List.length_append, List.length_cons, List.length_nil, List.append_assoc,
+      List.cons_append, List.nil_append] at ih
+    simp only [List.length_cons, List.range'_succ, applyCompiled, List.foldl_cons]
+    rw [applyAt_hit pp ps f pre d v hp]
+    exact ih
+
+/-- the same for the pure branch of engine/_row_cy.py (`for i in range(proc_size): if p is not None`) -/
+theorem row_apply_processors_branches_agree {α : Type} (procs : List (Slot α)) (data : List α)
+    (h : procs.length = data.length) :
+    applyRowPure procs data = applyCompiled procs data := by
+  have := rowpure_eq_compiled_aux procs [] [] data rfl h
+  simpa [applyRowPure, List.range_eq_range'] using this
+
+/-- what both branches compute: the width is kept, a column with a processor holds
+    `processor(raw value)` — whatever the raw value, NULL included — and the others the raw value -/
+theorem apply_processors_compiled_spec {α : Type} : ∀ (procs : List (Slot α)) (data : List α),
+    procs.length = data.length →
+    (applyCompiled procs data).length = data.length ∧
+    ∀ i (hi : i < data.length) (hp : i < procs.length) (ho : i < (applyCompiled procs data).length),
+      (applyCompiled procs data)[i] = (match procs[i] with | some f => f data[i] | none => data[i])
+  | [], [], _ => by simp [applyCompiled]
+  | [], _ :: _, h => by simp at h
+  | _ :: _, [], h => by simp at h
+  | none :: ps, v :: vs, h => by
+    have ih := apply_processors_compiled_spec ps vs (by simpa using h)
+    refine ⟨by simp [applyCompiled, ih.1], ?_⟩
+    intro i hi hp ho
+    cases i with
+    | zero => simp [applyCompiled]
+    | succ j =>
+      simp only [applyCompiled, List.getElem_cons_succ]
+      exact ih.2 j (by simpa using hi) (by simpa using hp) (by simpa [applyCompiled] using ho)
+  | some f :: ps, v :: vs, h => by
+    have ih := apply_processors_compiled_spec ps vs (by simpa using h)
+    refine ⟨by simp [applyCompiled, ih.1], ?_⟩
+    intro i hi hp ho
+    cases i with
+    | zero => simp [applyCompiled]
+    | succ j =>
+      simp only [applyCompiled, List.getElem_cons_succ]
+      exact ih.2 j (by simpa using hi) (by simpa using hp) (by simpa [applyCompiled] using ho)
+
+/-- the row getter's result does not depend on the build -/
+theorem apply_processors_both_agree {α : Type} (procs : List (Slot α)) (data a b : List α)
+    (h : applyProcsBoth procs data = some (a, b)) : a = b ∧ a.length = data.length := by
+  unfold applyProcsBoth at h
+  by_cases hl : (procs.length != data.length) = true
+  · rw [if_pos hl] at h; cases h
+  · rw [if_neg hl] at h
+    have hlen : procs.length = data.length := by simpa using hl
+    cases h
+    exact ⟨(apply_processors_branches_agree procs data hlen).symm,
+      (apply_processors_compiled_spec procs data hlen).1⟩
+
+example : applyCompiled [NProc.nz.slot, NProc.none.slot, NProc.neg.slot] [none, none, some 3]
+    = [some 77, none, some (-3)] := by decide
+example : applyPure [NProc.nz.slot, NProc.none.slot, NProc.neg.slot]
+    (procValid [NProc.nz.slot, NProc.none.slot, NProc.neg.slot]) [none, none, some 3]
+    = [some 77, none, some (-3)] := by decide
+example : procValid [NProc.nz.slot, NProc.none.slot, NProc.neg.slot] = [0, 2] := by decide
+example : applyProcsBoth [NProc.nz.slot] [none, some 1] = none := by decide
+end ApplyProcsThms
 
 end SaVerif.Props.C55
